@@ -237,6 +237,25 @@ def run_C13(ctx):
                             if is_np != want_np:
                                 out["failures"].append({"key": "C13:type", "net": net.to_json(),
                                                         "what": f"{nm} of {el.name} has type {type(x).__name__} under explicit {type(ex).__name__}"})
+                # ---- the same network stepped again WITHOUT an engine: the selected engine does the work, not the one
+                # that was passed before
+                del sel.log[:]
+                del ex.log[:]
+                try:
+                    with np.errstate(all="ignore"):
+                        R.net.step(**opts, **R.step_kwargs())
+                    out["coverage"]["evaluations"] += 1
+                    if ex.log or not sel.log:
+                        out["failures"].append({"key": "C13:engine-remembered", "net": net.to_json(),
+                                                "what": f"selected {type(sel).__name__}; network stepped with an explicit {type(ex).__name__}, then "
+                                                        f"stepped again without an engine: the earlier explicit engine evaluated {sorted(set(ex.log))[:4]}, "
+                                                        f"the selected one {sorted(set(sel.log))[:4]}"})
+                    with np.errstate(all="ignore"):
+                        R.net.step(engine=ex, **opts, **R.step_kwargs())      # (back to the state the next blocks expect)
+                except Exception as exn:
+                    out["failures"].append({"key": "C13:engineless-restep-raise", "net": net.to_json(),
+                                            "what": f"stepping again without an engine (selected {type(sel).__name__}) raised {exn!r:.200}"})
+                del sel.log[:]
                 # ---- element-level calls (no re-initialisation) with ANOTHER engine object of the same kind: that
                 # engine is asked for every primitive the whole-network step needed - nothing an earlier engine
                 # computed is re-used - and the first engine and the selected one are asked nothing
